@@ -8,6 +8,8 @@ mod coding;
 mod d_io;
 mod d_lzma;
 mod d_lzma2;
+mod d_reader;
+mod d_reuse;
 mod d_stream;
 mod d_xz;
 mod io;
@@ -142,6 +144,19 @@ fn main() {
             d_io::run(&prop, seed, a.num("inputs", 4) as usize, a.get("trace"), &mut rep);
             finish(rep, &a);
         }
+        "reader" => {
+            let mut rep = Report::new("reader");
+            match a.str("mode", "c13").as_str() {
+                "c13" => d_reader::run_c13(&prop, seed, a.num("inputs", 8) as usize, a.get("trace"), &mut rep),
+                _ => d_reader::run_c11(&prop, seed, a.num("inputs", 8) as usize, &mut rep),
+            }
+            finish(rep, &a);
+        }
+        "reuse" => {
+            let mut rep = Report::new("reuse");
+            d_reuse::run(&prop, seed, a.num("histories", 40) as usize, a.get("trace"), &mut rep);
+            finish(rep, &a);
+        }
         "xzlib" => {
             let lib = d_xz::payload_lib();
             let v: Vec<serde_json::Value> = lib.iter().map(|(p, o)| serde_json::json!({"plen": p.len(), "ulen": o.len()})).collect();
@@ -171,6 +186,11 @@ fn main() {
                 "xz" | "xzbytes" => d_xz::replay_value(case, &prop, &mut rep),
                 "lzma2" => d_lzma2::replay_value(case, &prop, &mut rep),
                 "io" => d_io::replay_value(case, &prop, &mut rep),
+                "reader" => d_reader::replay_value(case, &prop, &mut rep),
+                "reuse" => {
+                    let sd = case["seed"].as_u64().unwrap_or(1);
+                    d_reuse::run(&prop, sd, case["history"].as_u64().unwrap_or(0) as usize + 1, None, &mut rep);
+                }
                 k => {
                     eprintln!("unknown case kind {}", k);
                     std::process::exit(2);
